@@ -257,9 +257,10 @@ def run(prop, tier, seed, replay=None):
     for de in driver_errors:
         v.inconclusive.append(de)
     rc = v.finish()
-    vlib.write_evidence(prop, tier, seed, cov, time.time() - t0, len(v.violations),
-                        assumptions=["ID validity for an IP (BEP 42) is taken from dht.NodeIdSecure, which C17 checks separately",
-                                     "the bucket an ID belongs to is computed by the harness as the shared-prefix length (C18 checks the code's function)",
-                                     "ageing moves in 16-minute jumps, so the 15-minute horizon is never approached from below",
-                                     "AddNode of a blocklisted address is not generated (the statement is about datagrams)"])
+    if not replay:      # a replay re-runs one stored case; the evidence of the last full run is left alone
+        vlib.write_evidence(prop, tier, seed, cov, time.time() - t0, len(v.violations),
+                            assumptions=["ID validity for an IP (BEP 42) is taken from dht.NodeIdSecure, which C17 checks separately",
+                                         "the bucket an ID belongs to is computed by the harness as the shared-prefix length (C18 checks the code's function)",
+                                         "ageing moves in 16-minute jumps, so the 15-minute horizon is never approached from below",
+                                         "AddNode of a blocklisted address is not generated (the statement is about datagrams)"])
     return rc
